@@ -215,18 +215,15 @@ theorem relabel0_keys (out : List (OutLeaf V)) (lpn fresh : Nat → Nat) (a0 : N
       have e2 : (t.map toDbLeaf).map (·.sep) = t.map (·.sep) := by simp [toDbLeaf]
       rw [e1, e2, h.2]
 
-/-- **`update` maps well-formed trees to well-formed trees**: unless the batch empties the whole tree, the tree made of
+/-- **`update` maps well-formed trees to well-formed trees** (the empty tree included, on both sides): the tree made of
 the new index, the new leaves (the first under the zero key) and the page numbers the update wrote them to is `TreeOK`
 again. -/
 theorem update_closed (pagesOf : V → List Nat) (lnFresh bbnFresh : Nat → Nat) (a0 : Nat) (t : Tree V)
     (cs : List (Nat × Option (V × Bool))) (lo : Nat) (ht : TreeOK t) (hcs : LeafUpd.ChOK (2 ^ 256) lo cs)
-    (o : UpdateOut V) (h : UpdateOK t cs pagesOf lnFresh bbnFresh a0 o) (hne : o.leafLevel ≠ []) :
+    (o : UpdateOut V) (h : UpdateOK t cs pagesOf lnFresh bbnFresh a0 o) :
     TreeOK (newTree t lnFresh a0 o) := by
   have hleaves := newLeaves_ok t.leaves cs lo o.leafLevel ht.leaves hcs h.content h.asc h.news h.olds h.chain
-  refine ⟨hleaves, ?_, h.index, ?_⟩
-  · show newLeaves o.leafLevel ≠ []
-    obtain ⟨a, r, e⟩ := List.exists_cons_of_ne_nil hne
-    rw [e]; simp [newLeaves, relabelFirst]
+  refine ⟨hleaves, h.index, ?_⟩
   · apply lvlEnts_inj
     rw [lvlEnts_level]
     show BranchUpd.flat o.index = lvlEnts ((newLeaves o.leafLevel).map fun l => (l.sep, newLpn t.lpn lnFresh a0 o.leafLevel l.sep))
@@ -271,13 +268,13 @@ theorem flat_newLeaves (out : List (OutLeaf V)) : LeafUpd.flat (newLeaves out) =
     | nil => rfl
     | cons b r ih => simp only [List.map_cons, LeafUpd.flat_cons, toDbLeaf]; rw [ih]; rfl
 
-/-- a history of updates, each on the tree the previous one left (which it did not empty): any batches, any allocators -/
+/-- a history of updates, each on the tree the previous one left: any batches, any allocators -/
 inductive Rounds (pagesOf : V → List Nat) : Tree V → List (List (Nat × Option (V × Bool))) → Tree V → Prop
   | nil (t : Tree V) : Rounds pagesOf t [] t
   | cons (t : Tree V) (cs : List (Nat × Option (V × Bool))) (css : List (List (Nat × Option (V × Bool))))
       (lnFresh bbnFresh : Nat → Nat) (a0 lo : Nat) (o : UpdateOut V) (t' : Tree V) :
       LeafUpd.ChOK (2 ^ 256) lo cs → (cs = [] → a0 = 0) →
-      update LeafUpd.sepReal kfReal pagesOf lnFresh bbnFresh false t cs a0 = some o → o.leafLevel ≠ [] →
+      update LeafUpd.sepReal kfReal pagesOf lnFresh bbnFresh false t cs a0 = some o →
       Rounds pagesOf (newTree t lnFresh a0 o) css t' → Rounds pagesOf t (cs :: css) t'
 
 theorem rounds_invariant (pagesOf : V → List Nat) (t t' : Tree V) (css : List (List (Nat × Option (V × Bool))))
@@ -285,11 +282,11 @@ theorem rounds_invariant (pagesOf : V → List Nat) (t t' : Tree V) (css : List 
     TreeOK t' ∧ LeafUpd.flat t'.leaves = css.foldl (fun l cs => applyAll l cs) (LeafUpd.flat t.leaves) := by
   induction h with
   | nil t => exact ⟨ht, rfl⟩
-  | cons t cs css lnFresh bbnFresh a0 lo o t' h1 h2 h3 h4 _ ih =>
+  | cons t cs css lnFresh bbnFresh a0 lo o t' h1 h2 h3 _ ih =>
     obtain ⟨o', e', hu⟩ := update_spec pagesOf lnFresh bbnFresh a0 t cs lo ht h1 h2
     rw [h3] at e'
     cases e'
-    obtain ⟨i1, i2⟩ := ih (update_closed pagesOf lnFresh bbnFresh a0 t cs lo ht h1 o hu h4)
+    obtain ⟨i1, i2⟩ := ih (update_closed pagesOf lnFresh bbnFresh a0 t cs lo ht h1 o hu)
     refine ⟨i1, ?_⟩
     rw [i2]
     show css.foldl _ (LeafUpd.flat (newLeaves o.leafLevel)) = _
